@@ -1019,7 +1019,9 @@ func callBuiltin(caller *frame, callpos token.Pos, fn *ssa.Builtin, args []value
 				for k := 0; k < n; k++ {
 					tmp[k] = copyVal(srcv[k])
 				}
-				copy(dst, tmp)
+				for k := 0; k < n; k++ {
+					assignInPlace(&dst[k], tmp[k])
+				}
 				return n
 			}
 		}
@@ -1528,6 +1530,29 @@ func copyVal(v value) value {
 	return v
 }
 
+// assignInPlace overwrites the aggregate stored in *slot cell by cell (as a
+// memory copy does), so that pointers into the old value keep pointing into
+// the slot; a slot that holds no aggregate of the same shape is replaced.
+func assignInPlace(slot *value, v value) {
+	switch nv := v.(type) {
+	case structure:
+		if old, ok := (*slot).(structure); ok && len(old) == len(nv) {
+			for k := range nv {
+				assignInPlace(&old[k], nv[k])
+			}
+			return
+		}
+	case array:
+		if old, ok := (*slot).(array); ok && len(old) == len(nv) {
+			for k := range nv {
+				assignInPlace(&old[k], nv[k])
+			}
+			return
+		}
+	}
+	*slot = v
+}
+
 // appendValues implements append with Go's value semantics for aggregate
 // elements: appended elements are copies, and on reallocation the old
 // elements are copied too.
@@ -1551,7 +1576,12 @@ func appendValues(dst, src []value) []value {
 			for k, e := range src {
 				tmp[k] = copyVal(e)
 			}
-			copy(out[len(dst):], tmp)
+			// within the capacity the elements are overwritten in
+			// place: pointers taken earlier to an element of the backing
+			// array, or to a field inside it, observe the new value
+			for k := range tmp {
+				assignInPlace(&out[len(dst)+k], tmp[k])
+			}
 		} else {
 			copy(out[len(dst):], src)
 		}
